@@ -140,6 +140,18 @@ func (c *ColStr) DecodeColumn(r *Reader, rows int) error {
 		}
 
 		p.Start = p.End
+		if n > readGrowChunk && len(c.Buf)-p.Start < n {
+			// Big string: length is not trusted until the data is actually
+			// there, so growing buffer while reading.
+			buf, err := r.readGrow(c.Buf[:p.Start], n)
+			if err != nil {
+				return errors.Wrapf(err, "row %d: read", i)
+			}
+			c.Buf = buf
+			p.End = p.Start + n
+			c.Pos = append(c.Pos, p)
+			continue
+		}
 		p.End += n
 
 		if len(c.Buf) < p.End {
